@@ -77,4 +77,61 @@ for _ in range(N):
     finally:
         guard.__exit__(None, None, None)
     comp.case(block, ok, sample=block[:40].hex(), witness={"block_hex": block.hex(), "got": repr(got)[:300]})
-emit([comp])
+
+# ---------------------------------------------------------------- raw decoding against a reference TLV decoder
+c_ref = Component("decode-vs-reference-tlv",
+                  "random blocks of 0-8 records incl. User-Agent records (index 9) of declared length 127/128/129/144 with and without NUL "
+                  "bytes and arbitrary following bytes, index 36 with every type 0-3, unknown indices, zero-length values, truncated last "
+                  "records, missing terminator, trailing garbage: (index, deprecated-alias flag, type, length, value) of every decoded "
+                  "setting equals a reference decoder written from the property statement; 400 blocks quick / 20000 thorough")
+
+
+def ref_decode(b):
+    out, p = [], 0
+    while True:
+        if p + 2 <= len(b) and b[p:p + 2] == b"\x00\x00":
+            break
+        if p + 6 > len(b):
+            break
+        idx, ty, ln = (int.from_bytes(b[p + i:p + i + 2], "big") for i in (0, 2, 4))
+        if p + 6 + ln > len(b):
+            break
+        val = b[p + 6:p + 6 + ln]
+        p += 6 + ln
+        if idx == 9 and ln == 128 and len(val.rstrip(b"\x00")) >= 128:
+            # documented edge case: an over-long User-Agent continues up to (not including) the next NUL byte
+            q = b.find(b"\x00", p)
+            q = len(b) if q < 0 else q
+            val, p = val + b[p:q], q
+        out.append((idx, idx == 36 and ty == 1, ty, ln, val))
+    return out
+
+
+M = 400 if TIER == "quick" else 20000
+for _ in range(M):
+    recs = b""
+    for _ in range(rng.randrange(0, 9)):
+        idx = rng.choice([1, 2, 3, 7, 9, 9, 10, 36, 36, 37, 75, 0x0101, 65535])
+        ty = rng.randrange(0, 4)
+        if idx == 9:
+            ln = rng.choice([0, 5, 127, 128, 128, 129, 144])
+            val = bytes(rng.choice([65, 66, 0, 255]) if rng.random() < 0.1 else 65 for _ in range(ln))
+            if rng.random() < 0.3 and ln:
+                val = val[:-1] + b"\x00"
+        else:
+            ln = rng.choice([0, 1, 2, 4, rng.randrange(0, 30)])
+            val = bytes(rng.randrange(256) for _ in range(ln))
+        recs += idx.to_bytes(2, "big") + ty.to_bytes(2, "big") + len(val).to_bytes(2, "big") + val
+    block = recs + rng.choice([b"\x00\x00", b"\x00\x00", b"", b"\x00", b"\x00\x00\xff\xfe"]) + bytes(rng.randrange(256) for _ in range(rng.choice([0, 0, 3, 9])))
+    if rng.random() < 0.15 and block:
+        block = block[:rng.randrange(len(block))]
+    try:
+        with time_limit(5):
+            bc = BeaconConfig(block)
+        got = [(s_.index.value, type(s_.index).__name__ == "DeprecatedBeaconSetting", s_.type.value, s_.length, bytes(s_.value)) for s_ in bc.settings_tuple]
+        want = ref_decode(block)
+        ok = got == want
+    except BaseException as ex:   # noqa
+        ok, got, want = False, repr(ex), None
+    c_ref.case(block, ok, sample=block[:30].hex(), witness={"block_hex": block.hex(), "got": repr(got)[:400], "want": repr(want)[:400]})
+emit([comp, c_ref])
